@@ -493,6 +493,9 @@ LABEL_FAMILIES = [
     ["set", "jmp", "add", "SET", "Jmp", "ret_reg", "array"],   # equal to mnemonics
     ["x" * 64, "x" * 65, "X" * 64, "x" * 300],              # very long
     ["IF_EXIT", "IF_EXIT1", "IF_EXIT11", "IF_EXIT_1", "LOOP_EXIT", "LOOP_EXIT1"],   # what the SDK emits
+    # names that only START like a register (bank letter + digits + more): labels, also in text
+    ["M1_done", "R2D2", "C3PO", "Q0x", "R16x", "R1_", "M0M0", "C15a", "R007x", "Q1Q", "R0_0", "M12_"],
+    ["R", "Q", "M", "C", "R_1", "Rx1", "Q_0", "r1", "q0", "m15"],    # bank letter alone / lower case / no digits next
 ]
 # names that are variable names but read as a REGISTER when used as an operand in TEXT
 # (`jmp R1` is a register operand): legal for IR input (Label objects), not referable in text
@@ -736,6 +739,7 @@ MACRO_KEY_FAMILIES = [
     ["R1", "r1", "Q0", "q0", "M0", "R"],                     # equal to registers
     ["key" + "x" * 40, "key" + "x" * 41, "KEY" + "x" * 40],  # long
     ["a", "A", "a1", "A1", "a_", "A_", "ab", "aB", "Ab"],
+    ["R2D2", "R2", "M1_done", "M1", "Q0x", "Q0", "C3PO", "R16x"],      # keys that start like a register
 ]
 
 
